@@ -318,7 +318,7 @@ def resubscriptions(rng, tier):
             for k1 in pts:
                 for k2 in pts:
                     out.append(mk_runs(rng, [k1, k2], n, m=rng.choice([1, 2, 5, 1024]), rg=rng.choice([None, None, 2])))
-    for _ in range({'quick': 80, 'thorough': 1000, 'search': 40}[tier]):
+    for _ in range({'quick': 80, 'thorough': 700, 'search': 40}[tier]):
         n = rng.choice([1, 2, 3, 5, 7, 16, 100, 1024])
         kmax = 300 if tier != 'thorough' else 1000
         ks = [min(kmax, rng.choice([0, rng.randrange(0, n + 1), n, n * rng.randrange(1, 4), n * rng.randrange(1, 4) + rng.randrange(0, n + 1),
@@ -336,7 +336,7 @@ def generated_schemas(rng, tier):
                 for k in sorted({0, 1, 2, n, 2 * n + 1}):
                     out.append(mk(rng, k, n, rng.choice([1, 2, 5, 1024]), rg=rng.choice([None, None, 2]),
                                   schema={'cols': [[rng.choice(NAMES), t]]}))
-    for _ in range({'quick': 200, 'thorough': 2500, 'search': 60}[tier]):
+    for _ in range({'quick': 200, 'thorough': 1800, 'search': 60}[tier]):
         sch = gen_schema(rng)
         n = rng.choice([1, 2, 3, 4, 7, 16, 100, 1024])
         kmax = 300 if len(sch['cols']) <= 8 else 60
